@@ -27,7 +27,7 @@ def expected_view(rnd, lay):
         if "okay" in e:   # expect record (denotation)
             builds = e["okay"]
             verdict = ("Pass" if e["pass"] else "Fail") if builds else "Err"
-            alog = e["alog"] if builds else []
+            alog = e["alog"]       # a file that does not build still logs the assertions evaluated before the error
         else:             # got record (machine)
             builds = e["res"] in ("pass", "fail")
             verdict = {"pass": "Pass", "fail": "Fail", "err": "Err"}[e["res"]]
@@ -73,7 +73,7 @@ def same_view(exp, obs, args):
     for e, o, a in zip(exp["files"], obs["files"], args):
         if o["arg"] != a or e["verdict"] != o["verdict"]:
             return False
-        if e["verdict"] != "Err" and e["log"] != o["log"]:
+        if e["log"] != o["log"]:
             return False
     return True
 
